@@ -116,6 +116,14 @@ func buildWorker(tmp string, race bool) (string, error) {
 		out += ".race"
 		args = append(args, "-race")
 	}
+	if repo != "/repo" {
+		// scratch copy of mattn/anko (seeded-change validation): same module, other replace target
+		mf, err := altModfile(tmp)
+		if err != nil {
+			return "", err
+		}
+		args = append(args, "-modfile="+mf)
+	}
 	args = append(args, "-o", out, "./cmd/vworker")
 	cmd := exec.Command("go", args...)
 	cmd.Dir = harness
@@ -127,6 +135,23 @@ func buildWorker(tmp string, race bool) (string, error) {
 		return "", fmt.Errorf("%v\n%s", err, buf.String())
 	}
 	return out, nil
+}
+
+// altModfile writes a copy of harness/go.mod whose replace directive points at VERIF_REPO.
+func altModfile(tmp string) (string, error) {
+	b, err := os.ReadFile(filepath.Join(harness, "go.mod"))
+	if err != nil {
+		return "", err
+	}
+	s := strings.Replace(string(b), "=> /repo", "=> "+repo, 1)
+	mf := filepath.Join(tmp, "alt.mod")
+	if err := os.WriteFile(mf, []byte(s), 0o644); err != nil {
+		return "", err
+	}
+	if sum, err := os.ReadFile(filepath.Join(harness, "go.sum")); err == nil {
+		os.WriteFile(filepath.Join(tmp, "alt.sum"), sum, 0o644)
+	}
+	return mf, nil
 }
 
 func buildAnko(tmp string) (string, error) {
@@ -703,7 +728,7 @@ func (rc *runCtx) finish(start time.Time) int {
 		"wall_s":      time.Since(start).Seconds(),
 		"violations":  unlisted,
 	}
-	if !rc.replayMode {
+	if !rc.replayMode && repo == "/repo" { // scratch-copy runs (VERIF_REPO) never write evidence
 		os.MkdirAll(filepath.Join(root, "evidence"), 0o755)
 		b, _ := json.MarshalIndent(ev, "", " ")
 		os.WriteFile(filepath.Join(root, "evidence", rc.prop+".json"), append(b, '\n'), 0o644)
